@@ -281,6 +281,15 @@ def check_props(pid, flocq_ok=()):
     return ok2, len(theorems), min(closed, len(theorems)), details, log
 
 
+def coqchk(pid, timeout=2400):
+    """independent re-check of the compiled property file and everything it depends on (thorough tier): no axioms, no type-in-type,
+    no unsafe fixpoints, no assumed positivity"""
+    rc, out = run(['timeout', str(timeout), 'coqchk', '-silent', '-o', '-Q', '.', 'SvgdxModel', 'SvgdxModel.Props.%s' % pid], cwd=COQ, timeout=timeout + 60)
+    want = ['* Axioms: <none>', 'relying on type-in-type: <none>', 'relying on unsafe (co)fixpoints: <none>', 'positivity is assumed: <none>']
+    missing = [w for w in want if w not in out]
+    return rc == 0 and not missing, ('coqchk exit %s; not reported clean: %s; %s' % (rc, missing, out[-400:]) if (rc != 0 or missing) else 'coqchk: context summary clean (no axioms)')
+
+
 # ---------------------------------------------------------------- runners
 def run_lines(binary, args, lines, timeout=1200):
     data = ('\n'.join(lines) + '\n').encode()
